@@ -57,7 +57,9 @@ def check_tangent(case, ctx):
     ctx.label('model:' + model, 'cone' if cone else 'cylinder', 'rule:' + case['method'], 'cores:%d' % case['cores'],
               'imperfect' if imperfect else 'perfect')
     inc = case.get('inc', 1.)
-    prescribed = bool(case.get('pdC') and case.get('uTM')) or bool(case.get('thetaTdeg'))
+    prescribed = bool(case.get('pdC') and case.get('uTM')) or bool(case.get('thetaTdeg')) or bool(case.get('betadeg'))
+    if case.get('betadeg'):
+        ctx.label('load-asymmetry:tLA=%s' % ('0' if not case.get('tLAdeg') else 'non-zero'))
     ctx.label('inc=1' if inc == 1. else 'inc<1', 'prescribed-displacement' if prescribed else 'no-prescribed-displacement')
     c_before = c.copy()
     with package(name + '.fint'):
@@ -86,6 +88,20 @@ def check_tangent(case, ctx):
         lin = K0uu.dot(e * c)
         ctx.ok(np.max(np.abs(fe - lin)) <= 1e-3 * e * max(1., case['wamp']) ** 2 * (np.max(np.abs(np.abs(K0uu).dot(np.abs(c))))) + 1e-12 * fsc,
                name + '.small-state', 'fint(eps c) - k0 eps c = %.3e (linear part %.3e)' % (np.max(np.abs(fe - lin)), np.max(np.abs(lin))))
+        # ... and the remainder is of second order: it shrinks by about 1/4 per halving of eps (a first-order leak - e.g. a reference-load
+        # matrix added to the stiffness - shrinks by 1/2 at every halving); judged only above the rounding of fint
+        rr = []
+        for e_ in (1e-2, 5e-3, 2.5e-3):
+            with package(name + '.fint'):
+                fe_ = np.asarray(cc.calc_fint(e_ * c, inc=inc, silent=True), dtype=float)
+            rr.append(np.max(np.abs(fe_ - K0uu.dot(e_ * c))))
+        if rr[2] > 1e-9 * 2.5e-3 * fsc:
+            ctx.ok(min(rr[1] / rr[0], rr[2] / rr[1]) <= 0.45, name + '.small-state',
+                   'remainder of fint(eps c) - eps k0 c shrinks like a first-order term: %.3e -> %.3e -> %.3e' % tuple(rr))
+        # the tangent at the undeformed state of a perfect shell is the linear stiffness
+        with package(name + '.kT'):
+            KT0 = dense(cc.calc_kT(np.zeros(nu), inc=inc, silent=True))
+        ctx.close('kT(0)==k0uu', KT0, K0uu, 1e-10, bucket=name + '.kT(0)')
     # thread-count independence
     for nc in case['other_cores']:
         cc.ni_num_cores = nc
@@ -172,6 +188,10 @@ def _strategy(draw, tier='quick'):
     hh = case['h'] if 'iso_' in case['model'] else case['plyt'] * len(case['stack'])
     case['uTM'] = round(draw(gen.fl(-1., 1.)), 3) * hh if case['pdC'] else 0.
     case['thetaTdeg'] = draw(st.sampled_from([0., 0., 0.01, -0.03]))
+    # load asymmetry: tilt betadeg of the loaded edge about an axis at circumferential position tLAdeg
+    if draw(st.integers(0, 2)) == 0:
+        case['betadeg'] = draw(st.sampled_from([0.002, -0.005, 0.01]))
+        case['tLAdeg'] = draw(st.sampled_from([0., 30., -75., 140.]))
     return case
 
 
